@@ -1,7 +1,7 @@
 """C07  Failures at trial points are survived and never accepted."""
 from . import ctrl, loop, steps
 
-OWNED = ["C07.", "C15.failure_doubles_lambda", "C15.iterate_kept_after_rejection", "C15.iterate_changes_only_to_accepted_candidate", "C01.gate."]
+OWNED = ["C07.", "C15.failure_doubles_lambda", "C15.iterate_kept_after_rejection", "C15.iterate_changes_only_to_accepted_candidate", "C01.gate.", "C17.unconverged_iteration_never_returns_a_vector", "C17.lu_factorisation_failure_is_linear_solver_error", "C17.error_only_when_the_iteration_reports_failure"]
 REQUIRED = [
     "C07.only_declared_failures_reach_compute_step", "C07.failed_trial_is_discarded", "C07.accepted_iterate_is_finite_everywhere", "C15.failure_doubles_lambda",
     "C07.linear_solver_failure_becomes_step_solver_error", "C07.initial_point_failure_is_the_dedicated_error_before_any_step", "C07.solve_proceeds_only_from_a_finite_start", "C07.initial_error_iff_a_callback_fails_at_the_start",
@@ -30,4 +30,10 @@ def tasks(tier):
     t += loop.loop_tasks([dict(policy="DualNorm", cons=["eq0"], start_faults=True), dict(policy="Constant", cons=[], start_faults=True)], 1 if q else 2)
     t += loop.loop_tasks([dict(policy="DualNorm", cons=["eq0"], start_point_faults=True), dict(policy="Constant", cons=[], vars=["lower", "free"], start_point_faults=True)], 1 if q else 2)
     t += loop.loop_tasks([dict(policy="DualNorm", cons=["eq0"])], 2 if q else 3)
+    # where a linear-solver failure starts: the wrappers turn every failure the library reports (LU
+    # RuntimeError, GMRES / MINRES info != 0) into LinearSolverError and never hand back a vector
+    for kind in ("GMRES", "MINRES"):
+        for guess in (False, True):
+            t.append(dict(module="linsol", fn="h_krylov", shape=dict(n=2, kind=kind, trans=False, guess=guess, fmt="csr"), opts={}))
+    t.append(dict(module="linsol", fn="h_lu", shape=dict(n=2, fmt="csc"), opts={}))
     return t
